@@ -150,7 +150,7 @@ theorem walk_term (sf nh : Nat) (rest : List UInt8) (off : Nat) (af : Bool) (k :
 theorem loop_walk (d : List UInt8) : ∀ (fuel nh off : Nat) (af : Bool) (k sf : Nat) (w : V6Walk),
     d.length - off < sf →
     findUpperLoop d fuel nh off af = .ok w →
-    ∃ k', walk sf nh (d.drop off) off af k = .resolved w.nh w.off w.isFrag w.anyFrag (d.drop w.off) k' := by
+    ∃ k', walk sf nh (d.drop off) off af k = .resolved w.nh w.off w.isFrag w.anyFrag (d.drop w.off) k' ∧ k' ≤ k + fuel := by
   intro fuel
   induction fuel with
   | zero =>
@@ -164,7 +164,7 @@ theorem loop_walk (d : List UInt8) : ∀ (fuel nh off : Nat) (af : Bool) (k sf :
       · rename_i hne _
         simp only [Res.ok.injEq] at h
         subst h
-        exact ⟨k, walk_term _ _ _ _ _ _ (by omega) (by omega) (by omega)⟩
+        exact ⟨k, walk_term _ _ _ _ _ _ (by omega) (by omega) (by omega), by omega⟩
   | succ n ih =>
     intro nh off af k sf w hsf h
     obtain ⟨sf', rfl⟩ : ∃ s, sf = s + 1 := ⟨sf - 1, by omega⟩
@@ -181,7 +181,7 @@ theorem loop_walk (d : List UInt8) : ∀ (fuel nh off : Nat) (af : Bool) (k sf :
           rw [drop_cons d off (by omega), drop_cons d (off+1) (by omega)]
         simp only [byte_eq_getElem d off (by omega), byte_eq_getElem d (off+1) (by omega)] at h hle
         rw [walk_tlv sf' nh _ off af k hA _ _ _ hr (by simp; omega), List.drop_drop]
-        exact ih _ _ _ _ _ _ (by omega) h
+        (obtain ⟨k', e1, e2⟩ := ih _ _ _ (k + 1) sf' _ (by omega) h; exact ⟨k', e1, by omega⟩)
     · split at h
       · rename_i hA
         subst hA
@@ -207,7 +207,7 @@ theorem loop_walk (d : List UInt8) : ∀ (fuel nh off : Nat) (af : Bool) (k sf :
               · omega
               · have := mt hf8.2 h1; omega
             rw [if_pos this]
-            exact ⟨_, rfl⟩
+            exact ⟨_, rfl, by omega⟩
           · rename_i hfr
             have : ¬ ((d[off+2]'(by omega)).toNat * 32 + (d[off+3]'(by omega)).toNat / 8 ≠ 0) := by
               have h1 : (d[off+2]'(by omega)).toNat = 0 := by
@@ -218,7 +218,7 @@ theorem loop_walk (d : List UInt8) : ∀ (fuel nh off : Nat) (af : Bool) (k sf :
               omega
             rw [if_neg this]
             have hle := loop_ok_off_le _ _ _ _ _ _ h
-            exact ih _ _ _ _ _ _ (by omega) h
+            (obtain ⟨k', e1, e2⟩ := ih _ _ _ (k + 1) sf' _ (by omega) h; exact ⟨k', e1, by omega⟩)
       · split at h
         · rename_i hA
           split at h
@@ -231,13 +231,13 @@ theorem loop_walk (d : List UInt8) : ∀ (fuel nh off : Nat) (af : Bool) (k sf :
               rw [drop_cons d off (by omega), drop_cons d (off+1) (by omega)]
             simp only [byte_eq_getElem d off (by omega), byte_eq_getElem d (off+1) (by omega)] at h hle
             rw [walk_ah sf' nh _ off af k hA _ _ _ hr (by simp; omega), List.drop_drop]
-            exact ih _ _ _ _ _ _ (by omega) h
+            (obtain ⟨k', e1, e2⟩ := ih _ _ _ (k + 1) sf' _ (by omega) h; exact ⟨k', e1, by omega⟩)
         · split at h
           · simp at h
           · simp only [Res.ok.injEq] at h
             subst h
             rename_i h1 h2 h3 _
-            exact ⟨k, walk_term _ _ _ _ _ _ h1 h2 h3⟩
+            exact ⟨k, walk_term _ _ _ _ _ _ h1 h2 h3, by omega⟩
 
 
 /-- the classification reported by the model, as the specification's record -/
@@ -319,19 +319,22 @@ def pkt6 (d : List UInt8) (w : V6Walk) (k : Nat) : Spec.IP.Pkt :=
   { version := 6, src := (d.drop 8).take 16, dst := (d.drop 24).take 16, proto := w.nh,
     hdrLen := w.off, nonFirstFrag := w.isFrag, anyFrag := w.anyFrag, upper := d.drop w.off, nExt := k }
 
-theorem findUpper_spec (d : List UInt8) (w : V6Walk) (h : findUpper d = .ok w) :
-    ∃ k, parse6 d = some (pkt6 d w k) := by
+theorem findUpper_spec_le (d : List UInt8) (w : V6Walk) (h : findUpper d = .ok w) :
+    ∃ k, parse6 d = some (pkt6 d w k) ∧ k ≤ maxIPv6ExtHeaders := by
   simp only [findUpper] at h
   split at h
   · simp at h
   · rename_i hlen
     rw [idx_eq d 6 (by omega)] at h
     simp only [ok_bind] at h
-    obtain ⟨k, hk⟩ := loop_walk d _ _ _ _ 0 ((d.drop 40).length + 1) w (by simp) h
-    refine ⟨k, ?_⟩
+    obtain ⟨k, hk, hle⟩ := loop_walk d _ _ _ _ 0 ((d.drop 40).length + 1) w (by simp) h
+    refine ⟨k, ?_, by omega⟩
     simp only [parse6, if_neg hlen, hk, pkt6]
 
-
+theorem findUpper_spec (d : List UInt8) (w : V6Walk) (h : findUpper d = .ok w) :
+    ∃ k, parse6 d = some (pkt6 d w k) := by
+  obtain ⟨k, hk, _⟩ := findUpper_spec_le d w h
+  exact ⟨k, hk⟩
 
 theorem parseV6_no_panic (d : List UInt8) (inc : Bool) : parseV6 d inc ≠ .panic := by
   simp only [parseV6]
